@@ -1,0 +1,18 @@
+//go:build verif
+
+package provider
+
+import "io"
+
+// Hooks for the verification harness in /verif (build tag "verif"): thin wrappers that expose unexported pieces so
+// that they can be driven directly. No existing line is changed; without the tag this file is not compiled.
+
+// VerifRenderPostForm executes the provider's POST-binding auto-submit template exactly as sendBackResponse does.
+func VerifRenderPostForm(p *Provider, w io.Writer, relayState, samlResponse, acsURL string) error {
+	return p.identityProvider.postTemplate.Execute(w, authResponseForm{relayState, samlResponse, acsURL})
+}
+
+// VerifRenderLogoutForm executes the provider's logout auto-submit template exactly as sendBackLogoutResponse does.
+func VerifRenderLogoutForm(p *Provider, w io.Writer, relayState, samlResponse, logoutURL string) error {
+	return p.identityProvider.logoutTemplate.Execute(w, LogoutResponseForm{RelayState: relayState, SAMLResponse: samlResponse, LogoutURL: logoutURL})
+}
